@@ -44,7 +44,7 @@ ASSUMPTIONS = [
     "inputs to process() are bytes objects (what protocol.py passes); other buffer types are not driven",
     "which class create_xor_masker() picks on which side of the threshold is recorded, not asserted; only the octets/pointer it produces are",
     "wire policy is asserted for DEFAULT options only; explicit mask= argument of sendFrame, maskClientFrames=False, maskServerFrames=True, applyMask=False are recorded at most, never asserted",
-    "per-frame key: among >= 8 frames produced by one per-frame API on one connection (and inside one fragmented message) at least 2 distinct keys must occur; PreparedMessage is masked once at preparation time and is excluded from the key-diversity monitor",
+    "per-frame key: among N >= 8 frames produced by one per-frame API on one connection at least N/2 distinct keys must occur, and the >= 3 masked frames of one fragmented message must not all share one key (false-alarm chance <= 2^-64 per message with 32-bit random keys); PreparedMessage is masked once at preparation time and is excluded from the key-diversity monitor",
     "protocol instances are the framework-agnostic base classes wired like src/autobahn/websocket/test/test_websocket_protocol.py does (factory, fake transport, _connectionMade(), state=OPEN); receive glue (_onMessage*..) mirrors the Twisted adapter",
 ]
 DECIDING = {
@@ -968,6 +968,7 @@ class Wire:
             # ---- mask policy + payload == XOR(app bytes, key) --------------------------------------
             plain = []
             msg_keys = []
+            msg_fam_keys = {}
             for fr in frames:
                 if role == "client":
                     R.count("wire_client_frames")
@@ -984,6 +985,7 @@ class Wire:
                             "beginMessageFrame-path" if (api in ("sendMessageFrame", "beginMessageFrame") and not (
                                 fr["fin"] and fr["opcode"] == 0 and len(fr["raw"]) == 0)) else "sendFrame-path")
                         keysets.setdefault(fam, []).append(fr["key"])
+                        msg_fam_keys.setdefault(fam, []).append(fr["key"])
                 else:
                     R.count("wire_server_frames")
                     if fr["masked"]:
@@ -1008,12 +1010,15 @@ class Wire:
                     {"api": api, "frames": [(fr["opcode"], fr["fin"], fr["masked"], fr["key"].hex() if fr["key"] else None,
                                              len(fr["raw"])) for fr in frames][:12],
                      "got": got[max(0, i - 4):i + 12].hex(), "want": app[max(0, i - 4):i + 12].hex()}, replay)
-            if role == "client" and api != "sendPreparedMessage" and len(msg_keys) >= 8:
-                R.count("wire_key_sets_checked")
-                if len(set(msg_keys)) < 2:
-                    R.violation("C15/wire/constant-key/%s" % api,
-                                "all %d frames of one message carry the same masking key %s" % (len(msg_keys), msg_keys[0].hex()),
-                                {"api": api}, replay)
+            # >= 3 masked frames of ONE message sharing one key: chance 2^-64 with per-frame random keys
+            for fam, mk in msg_fam_keys.items():
+                if role == "client" and api != "sendPreparedMessage" and len(mk) >= 3:
+                    R.count("wire_key_sets_checked")
+                    R.count("wire_message_key_sets_checked")
+                    if len(set(mk)) < 2:
+                        R.violation("C15/wire/constant-key/%s" % api,
+                                    "all %d frames of one message written through %s carry the same masking key %s" % (
+                                        len(mk), fam, mk[0].hex()), {"api": api, "family": fam}, replay)
             R.sample({"role": role, "api": api, "app_payload": app[:16].hex() + ("..." if len(app) > 16 else ""),
                       "frames": [{"opcode": fr["opcode"], "fin": fr["fin"], "masked": fr["masked"],
                                   "key": fr["key"].hex() if fr["key"] else None, "len": len(fr["raw"]),
@@ -1046,6 +1051,12 @@ class Wire:
                 if fam == "sendPreparedMessage" or len(ks) < 8:
                     continue
                 R.count("wire_key_sets_checked")
+                if len(set(ks)) * 2 < len(ks):
+                    # fewer than N/2 distinct keys among N >= 8 frames needs >= N/2 collisions of 32-bit random draws
+                    R.violation("C15/wire/key-reuse/%s" % fam,
+                                "%d client frames produced through %s on one connection carry only %d distinct masking keys "
+                                "(a per-frame key gives %d)" % (len(ks), fam, len(set(ks)), len(ks)),
+                                {"family": fam, "frames": len(ks), "distinct": len(set(ks))}, replay)
                 if len(set(ks)) < 2:
                     R.violation("C15/wire/constant-key/%s" % fam,
                                 "all %d client frames produced through %s on one connection carry the same masking key %s" % (
